@@ -133,7 +133,13 @@ fn gen_duration(rng: &mut Rng, i: i128, dir: i128) -> (Duration, &'static str) {
             let ns = (room + *rng.pick(&[-1i128, 0, 1, 2, NS, -NS, D, -D])).max(0);
             (Duration::new((ns / NS) as u64, (ns % NS) as u32), "dur/at-representability-edge")
         }
-        6 => (Duration::new(rng.below(1 << 40), 0), "dur/<2^40-s"),
+        6 => {
+            // k whole days minus/plus the time of day: the result lands exactly on a midnight (± 1 ns)
+            let tod = i.rem_euclid(D);
+            let k = rng.range_i128(0, 3) * D;
+            let ns = (k + if dir > 0 { D - tod } else { tod } + *rng.pick(&[-1i128, 0, 0, 1])).max(0);
+            (Duration::new((ns / NS) as u64, (ns % NS) as u32), "dur/to-a-midnight±1ns")
+        }
         _ => (Duration::new(rng.next() >> rng.below(40), rng.below(1_000_000_000) as u32), "dur/wide"),
     }
 }
@@ -332,10 +338,19 @@ pub fn run(ctx: &Ctx) -> PropResult {
             }
             _ => (gen_instant(rng, 2).0, gen_offset(rng)),
         };
-        let tn = match rng.below(3) {
+        let tod = i.rem_euclid(D);
+        let tn = match rng.below(4) {
             0 => *rng.pick(&[0u64, 1, 86_399_999_999_999, 43_200_000_000_000]),
+            1 => {
+                // exactly to the next / previous midnight, or one nanosecond either side
+                let exact = if dir > 0 { D - tod } else { tod };
+                (exact + *rng.pick(&[-1i128, 0, 0, 1])).clamp(0, D - 1) as u64
+            }
             _ => rng.below(86_400_000_000_000),
         };
+        if (dir > 0 && tod + tn as i128 == D) || (dir < 0 && tod == tn as i128) {
+            rec.bin("time-op/lands-exactly-on-midnight");
+        }
         judge_time_op(rec, i, off, dir, tn, gen_offset(rng), idx % 8 >= 6);
     }));
     wls.push(Workload::cases("date_ops", ctx.count(120_000, 4_000_000), |rec, idx, rng| {
@@ -358,7 +373,7 @@ pub fn run(ctx: &Ctx) -> PropResult {
     meta.required_bins = vec![
         "count/0..100", "count/u32::MAX-0..2", "count/2^31±1", "count/64-bit-wrap-threshold", "count/at-representability-edge", "count/uniform-u32",
         "add_hours/representable", "add_hours/unrepresentable", "sub_minutes/representable", "sub_nanos/unrepresentable", "add_days/unrepresentable", "sub_days/representable",
-        "crosses-0001-01-01", "dur/2^32-days+eps", "dur/u64::MAX-s", "dur/at-representability-edge",
+        "crosses-0001-01-01", "dur/2^32-days+eps", "dur/u64::MAX-s", "dur/at-representability-edge", "dur/to-a-midnight±1ns", "time-op/lands-exactly-on-midnight",
         "DateTime + Duration/representable", "DateTime - Duration/unrepresentable", "DateTime + Time/representable", "DateTime - Time/unrepresentable", "DateTime -= Time/representable",
         "Date::add_days/unrepresentable", "Date - Duration/representable", "Date + Duration/unrepresentable", "walk/with-judged-steps",
     ];
